@@ -339,6 +339,23 @@ def _decisions_on(lp, acc):
             if isinstance(n, ast.comprehension):
                 tests += n.ifs
             for t in tests:
+                # `<element> in table` / `table[<element>]`: the entry of the element in hand,
+                # which no other turn of the loop touches when the elements are distinct
+                own = isinstance(lp.target, ast.Name) and isinstance(t, ast.Compare) \
+                    and len(t.ops) == 1 and isinstance(t.ops[0], (ast.In, ast.NotIn)) \
+                    and dotted(t.left) == lp.target.id and dotted(t.comparators[0]) in acc
+                if own:
+                    keyed_only = all(
+                        not (isinstance(y, (ast.Name, ast.Attribute)) and dotted(y) == dotted(t.comparators[0]))
+                        or any(isinstance(z, ast.Subscript) and z.value is y and dotted(z.slice) == lp.target.id
+                               for z in ast.walk(lp))
+                        or y is t.comparators[0]
+                        or any(isinstance(z, ast.Call) and isinstance(z.func, ast.Attribute)
+                               and z.func.value is y and z.func.attr in ("pop", "get", "setdefault")
+                               and z.args and dotted(z.args[0]) == lp.target.id for z in ast.walk(lp))
+                        for s2 in lp.body for y in ast.walk(s2))
+                    if keyed_only:
+                        continue
                 for x in ast.walk(t):
                     d = dotted(x) if isinstance(x, (ast.Name, ast.Attribute)) else None
                     if d in acc:
